@@ -31,6 +31,7 @@ def run(check: Check, repo: Repo, tier: str) -> None:
     M.arg_normalise(check, repo)
     M.recorded_means_compared(check, repo)
     M.all_pairs(check, repo)
+    M.node_key_identity(check, repo)
     from rules import generic_rules as G
     mm = repo.mod(M.MOD)
     mfuncs = list(mm.functions())
